@@ -12,6 +12,9 @@ SUBS = []
 for _n, _q, _t, _f in [("ctx", 20000, 200000, False), ("aes", 1500, 20000, True), ("dh", 1200, 15000, False), ("awskeys", 6000, 60000, False)]:
     SUBS.append(dict(name=_n, fork=_f, quick=dict(cases=_q, shards=2), thorough=dict(cases=_t, shards=2)))
     SUBS.append(dict(name=_n + "-O2", fork=_f, quick=dict(cases=_q, shards=2), thorough=dict(cases=_t, shards=2)))
+# long streams (>= 2^32 bits through the context): a handful of cases, each a few CPU-seconds
+SUBS.append(dict(name="ctxlong", quick=dict(cases=1, shards=2), thorough=dict(cases=8, shards=4)))
+SUBS.append(dict(name="ctxlong-O2", quick=dict(cases=1, shards=2), thorough=dict(cases=8, shards=4)))
 FILES = {"sha256.c", "sha256_shani.c", "sha256_sse2.c", "sha1.c", "md5.c", "crypto_aes.c", "crypto_aes_aesni.c", "crypto_aesctr.c",
          "crypto_aesctr_aesni.c", "crypto_dh.c", "crypto_dh_group14.c", "aws_readkeys.c", "cpusupport_x86_aesni.c",
          "cpusupport_x86_shani.c", "cpusupport_x86_sse2.c", "cpusupport_x86_ssse3.c", "insecure_memzero.c", "warnp.c"}
